@@ -1,6 +1,6 @@
 """Manifest metadata that is not per-check configuration: hook commits in /repo and reasons for unclaimed properties.
 Per-check texts (level text / note / design_ref) live next to the check configuration in checkcfg.py."""
-HOOK_COMMITS = ["ca2970c", "3089749", "b7987cc", "080c8d7", "8919266", "5d5766c", "08176a7", "b647bb5"]
+HOOK_COMMITS = ["ca2970c", "3089749", "b7987cc", "080c8d7", "8919266", "5d5766c", "08176a7", "b647bb5", "8bbfcb2"]
 
 _ALL = ["C%02d" % i for i in range(1, 21)]
 
